@@ -1549,6 +1549,82 @@ def it_next_zip2(it, st, itv, fr):
 EXTRA_ITER_KINDS['zip2'] = it_next_zip2
 
 
+def it_next_skip(it, st, itv, fr):
+    """Iterator::skip(n) with a concrete n: the first next() drops n items (f holds the number still to drop)"""
+    kind, src, n, pos, cur = itv.fields
+    if n == 0:
+        for s2, inner, item in it_next(it, st, src, fr):
+            yield s2, It('skip', inner, 0), item
+        return
+    for s2, inner, item in it_next(it, st, src, fr):
+        if item is None or is_abnormal(item):
+            yield s2, It('skip', inner, 0), item
+        else:
+            yield from it_next_skip(it, s2, It('skip', inner, n - 1), fr)
+
+
+def it_next_take(it, st, itv, fr):
+    kind, src, n, pos, cur = itv.fields
+    if n == 0:
+        yield st, itv, None
+        return
+    for s2, inner, item in it_next(it, st, src, fr):
+        yield s2, It('take', inner, n - 1 if item is not None else 0), item
+
+
+def it_next_chain(it, st, itv, fr):
+    kind, src, f, pos, cur = itv.fields
+    a, b = src
+    if a is not None:
+        for s2, a2, item in it_next(it, st, a, fr):
+            if item is not None:
+                yield s2, It('chain', (a2, b)), item
+            else:
+                yield from it_next_chain(it, s2, It('chain', (None, b)), fr)
+        return
+    for s2, b2, item in it_next(it, st, b, fr):
+        yield s2, It('chain', (None, b2)), item
+
+
+EXTRA_ITER_KINDS.update({'skip': it_next_skip, 'take': it_next_take, 'chain': it_next_chain})
+
+
+def M_iter_skip_take(kind):
+    def f(it, ctx, args, st):
+        n = concrete(args[1])
+        if n is None:
+            raise Unsupported(f'Iterator::{kind} with a symbolic count')
+        yield st, It(kind, as_iter(it, st, args[0]), n)
+    return f
+
+
+def M_iter_chain(it, ctx, args, st):
+    yield st, It('chain', (as_iter(it, st, args[0]), as_iter(it, st, args[1])))
+
+
+def M_iter_last(it, ctx, args, st):
+    for s2, items in drain(it, st, as_iter(it, st, args[0]), ctx.fr):
+        yield s2, (items if is_abnormal(items) else (it.some(items[-1]) if items else it.none))
+
+
+def M_iter_nth(it, ctx, args, st):
+    n = concrete(args[1])
+    if n is None:
+        raise Unsupported('Iterator::nth with a symbolic index')
+    p = args[0]
+    def go(st, itv, k):
+        for s2, i2, item in it_next(it, st, itv, ctx.fr):
+            if item is None or is_abnormal(item):
+                s2.write(p, i2)
+                yield s2, (it.none if item is None else item)
+            elif k == 0:
+                s2.write(p, i2)
+                yield s2, it.some(item)
+            else:
+                yield from go(s2, i2, k - 1)
+    yield from go(st, itval(st, p), n)
+
+
 def M_mem_replace(it, ctx, args, st):
     p = args[0]
     old = st.deref(p)
@@ -1934,6 +2010,10 @@ def M_poll_async_body(it, ctx, args, st):
     path = m.group(1).strip()
     crate = ctx.fr.fn.crate
     cands = [n for n in it.p.fns if n.endswith(path + '::{closure#0}') and (n.startswith(crate + '::') or n == path + '::{closure#0}')]
+    if not cands:
+        # named through a re-export (conjure_http::private::f for conjure_http::private::client::f): same crate, same item name
+        segs = path.split('::')
+        cands = [n for n in it.p.fns if n.endswith('::' + segs[-1] + '::{closure#0}') and n.split('::')[0] == segs[0]]
     if len(cands) != 1:
         raise Unsupported(f'async body of {path}: {len(cands)} state machines')
     # the callee's generics: bound from the coroutine type's own argument list, in declaration order
@@ -1984,6 +2064,8 @@ MODELS = [
     (r'<(?:[iu](?:8|16|32|64|128|size)|f64|f32|bool) as ' + P + r'str::FromStr>::from_str', M_from_str_trait),
     (P + r'str::<impl str>::starts_with::<&str>', M_str_starts_with_str), (P + r'str::<impl str>::ends_with::<&str>', M_str_ends_with_str),
     (P + r'slice::<impl \[u8\]>::starts_with', M_str_starts_with_str), (P + r'slice::<impl \[u8\]>::ends_with', M_str_ends_with_str),
+    (ITER + r'skip', M_iter_skip_take('skip')), (ITER + r'take', M_iter_skip_take('take')), (ITER + r'chain::<.*>', M_iter_chain),
+    (ITER + r'last', M_iter_last), (ITER + r'nth', M_iter_nth),
     (ITER + r'partition::<.*>', M_partition),
     (ITER + r'for_each::<.*>', M_for_each), (ITER + r'rposition::<.*>', M_rposition),
     (r'<' + P + r'cmp::Ordering as ' + P + r'cmp::PartialEq>::(eq|ne)', M_ordering_eq),
